@@ -148,11 +148,14 @@ impl DepsGraph {
             None => return,
         };
 
+        // Mark the node before visiting its reverse dependencies, so that
+        // assets that look each other up do not recurse for ever.
+        sort_data.visited.insert(key.into_owned());
+
         for rdep in node.rdeps.iter() {
             self.visit(sort_data, rdep.as_borrowed());
         }
 
-        sort_data.visited.insert(key.into_owned());
         if let BorrowedDependency::Asset(key) = key {
             sort_data.list.push(key.clone());
         }
